@@ -244,6 +244,14 @@ def run(run_, ctx):
             if p.status == "return":
                 complete.setdefault(k, []).append(visits)
             ins = [e for e in evs if e["name"] == "insert" and "HashSet" in (e["key"] or "")]
+            if not ins:
+                # `if !set.contains(ty) { set.insert(ty.clone()) }`: on the path without the insertion the node is known to be in the set
+                con = [e for e in evs if e["name"] == "contains" and "HashSet" in (e["key"] or "") and len(e["args"]) == 2
+                       and norm(e["args"][0]) == ("param", 2, root.locals[2]["ty"]) and norm(e["args"][1]) == ("param", 1, root.locals[1]["ty"])]
+                known = any(norm(cnd) == norm(e["result"]) and t is True for e in con for cnd, t, kk in p.pc)
+                insert_ok = insert_ok and known
+                continue
+            ins = [e for e in evs if e["name"] == "insert" and "HashSet" in (e["key"] or "")]
             okp = (len(ins) == 1 and norm(ins[0]["args"][0]) == ("param", 2, root.locals[2]["ty"]) and norm(ins[0]["args"][1])[0] == "call"
                    and (norm(ins[0]["args"][1])[2] or "").endswith("Clone::clone") and norm(norm(ins[0]["args"][1])[3][0]) == ("param", 1, root.locals[1]["ty"])
                    and not any(root.canon in ((e["callee"] or {}).get("canon"), ((e["callee"] or {}).get("resolved") or {}).get("canon")) for e in evs[:evs.index(ins[0])]))
